@@ -237,7 +237,8 @@ PROPS["C11"] = dict(
         text=("Scripted sessions on 1-3 complete in-process broker nodes with virtual connection deadlines: generated scripts mix connect (keep-alive "
               "1..65535 s, optional will), subscribe/unsubscribe, publish, PINGREQ, idle periods of 0.05-0.9 (within) and 1.1-3 (beyond) times the "
               "allowance at any point including right after CONNACK, and the termination causes DISCONNECT, connection loss, protocol error "
-              "(second CONNECT, reserved packet types) and failure of the hosting node. After EVERY step, at quiescence with all gossip delivered: "
+              "(second CONNECT, reserved packet types), displacement by a newer session and failure of the hosting node; a second generator "
+              "delivers the gossip of 2-3 nodes message by message in a generated order (state judged at the deliver-everything points). After EVERY step, at quiescence with all gossip delivered: "
               "sessions that gave no cause are open, answered, listed everywhere and registered; ended sessions had their connection closed by the "
               "broker, are listed nowhere, own no subscription anywhere, are gone from the registry and receive nothing published afterwards; every "
               "listed subscription belongs to a listed session on the node it names."),
@@ -247,11 +248,14 @@ PROPS["C11"] = dict(
     rule=("a case = node count, client count, step list. Non-trivial = a session that had subscribed ends by a cause other than DISCONNECT, or a "
           "'within' idle longer than 3 s directly follows a CONNECT. Distinct = distinct case."),
     assumptions=["idle steps are nudged >= 500 ms away from any session's allowance boundary", "all gossip is delivered before the state is judged",
+                 "manual-gossip scripts: broadcasts are delivered one by one in a generated order; a failed node's broadcasts that were not delivered before the survivors were told of the failure are lost (memberlist declares a node dead only after seconds of silence)",
+                 "a displaced session lingering until its next keep-alive exchange (allowed by C12) is exempt from the subscription-belongs-to-a-listed-session invariant until it has ended",
                  "node failure = NotifyGossipLeave on the survivors; the check waits (real time, up to 15 s) for the delayed record cleanup"],
     runs=[
         dict(name="regress", pkg="c11", run="TestRegress", timeout=300),
         dict(name="random", pkg="c11", run="TestRandom", checks=dict(quick=1280, thorough=12000), shards=16, timeout=dict(quick=400, thorough=2400), shrinktime="90s"),
         dict(name="nodefail", pkg="c11", run="TestNodeFailure", checks=dict(quick=48, thorough=800), shards=16, timeout=dict(quick=400, thorough=2400), shrinktime="120s"),
+        dict(name="gossip", pkg="c11", run="TestGossipSchedules", checks=dict(quick=320, thorough=6000), shards=16, timeout=dict(quick=400, thorough=2400), shrinktime="120s"),
     ],
 )
 
